@@ -21,7 +21,7 @@ import vlib
 import hub_runs as hr
 from vlib import Evidence, Verdict, tlc, log
 
-MODEL_PROGS = ["putput", "putget", "putdel", "badput", "create"]
+MODEL_PROGS = ["putput", "putget", "putdel", "badput", "create", "badsame"]
 
 
 def run(pid, tier, ev=None, vd=None, finish=True):
